@@ -25,9 +25,9 @@ pub struct Selector {
 
 impl Selector {
     pub(crate) fn no_placeholder(&self) -> Opt<Self> {
-        let compound = match self.compound.no_placeholder() {
-            Opt::Some(compound) => compound,
-            Opt::Any => CompoundSelector::default(),
+        let (compound, any) = match self.compound.no_placeholder() {
+            Opt::Some(compound) => (compound, false),
+            Opt::Any => (CompoundSelector::default(), true),
             Opt::None => return Opt::None,
         };
         if self.is_local_empty() && self.rel_of.is_some() {
@@ -44,6 +44,9 @@ impl Selector {
         } else {
             None
         };
+        if any && rel_of.is_none() {
+            return Opt::Any;
+        }
         Opt::Some(Self { rel_of, compound })
     }
     pub(crate) fn no_leading_combinator(&self) -> Opt<Self> {
